@@ -858,9 +858,8 @@ theorem parallel_lines (los his : List Rat) (order : Option (List Int)) (es : Li
       lines.length = es.length ∧
       ∀ (k : Nat) (e : Elite), (if sort then sortByObj es else es)[k]? = some e →
         ∃ ys, pick e.meas cols = some ys ∧
-          lines[k]? = some ⟨e.obj, normClip cl.1 cl.2 e.obj, normYs l hh ys⟩ := by
+          lines[k]? = some ⟨e.obj, normClip cl.1 cl.2 e.obj, normYs (axesLo l hh) (axesHi l hh) ys⟩ := by
   unfold parallelPlot at h
-  simp only at h
   split at h
   · simp at h
   · rename_i cols hcols
@@ -884,7 +883,7 @@ theorem parallel_lines (los his : List Rat) (order : Option (List Int)) (es : Li
             refine ⟨cols, l, hv, hl, hh, ?_, rfl, ?_, ?_⟩
             · intro hnone
               subst hnone
-              simp only [Option.some.injEq] at hcols
+              simp only [parCols, Option.some.injEq] at hcols
               exact hcols.symm
             · have hlen := congrArg List.length hmap
               simp only [List.length_map] at hlen
@@ -894,10 +893,10 @@ theorem parallel_lines (los his : List Rat) (order : Option (List Int)) (es : Li
               · simp [(sortByObj_perm es).length_eq]
             · intro k e hk
               have hk' : (List.map (fun e => (pick e.meas cols).map
-                    (fun ys => (⟨e.obj, normClip lo hi e.obj, normYs l hv ys⟩ : ParLine)))
+                    (fun ys => (⟨e.obj, normClip lo hi e.obj, normYs (axesLo l hv) (axesHi l hv) ys⟩ : ParLine)))
                     (if sort = true then sortByObj es else es))[k]?
                   = some ((pick e.meas cols).map
-                    (fun ys => (⟨e.obj, normClip lo hi e.obj, normYs l hv ys⟩ : ParLine))) := by
+                    (fun ys => (⟨e.obj, normClip lo hi e.obj, normYs (axesLo l hv) (axesHi l hv) ys⟩ : ParLine))) := by
                 rw [List.getElem?_map, hk]; rfl
               cases hp : pick e.meas cols with
               | none =>
@@ -1181,6 +1180,63 @@ theorem gridHeatmap2_fields (dims : Nat × Nat) (b0 b1 : List Rat) (es : List El
       subst h
       exact ⟨rfl, rfl, rfl⟩
 
+/-! ## T20.5 for every content (one elite, shared coordinates): degenerate axes are widened -/
+
+theorem axes_getElem (l h : List Rat) (k : Nat) (lo hi : Rat) (hl : l[k]? = some lo)
+    (hh : h[k]? = some hi) :
+    (axesOf l h)[k]? = some (widen (lo, hi)) ∧ (axesLo l h)[k]? = some (widen (lo, hi)).1 ∧
+    (axesHi l h)[k]? = some (widen (lo, hi)).2 := by
+  have key : (axesOf l h)[k]? = some (widen (lo, hi)) := by
+    unfold axesOf
+    induction l generalizing h k with
+    | nil => simp at hl
+    | cons a as ih =>
+      cases h with
+      | nil => simp at hh
+      | cons b bs =>
+        cases k with
+        | zero =>
+          simp only [List.getElem?_cons_zero, Option.some.injEq] at hl hh
+          simp [hl, hh]
+        | succ k =>
+          simp only [List.getElem?_cons_succ] at hl hh
+          simp only [List.zip_cons_cons, List.map_cons, List.getElem?_cons_succ]
+          exact ih bs k hl hh
+  refine ⟨key, ?_, ?_⟩
+  · unfold axesLo; rw [List.getElem?_map, key]; rfl
+  · unfold axesHi; rw [List.getElem?_map, key]; rfl
+
+/-- T20.5 `parallel_position`: whenever the bounds of the plotted measures contain the stored
+measure (`lo ≤ m ≤ hi`: grid ranges, or min / max of the stored measures — **also when
+`lo = hi`**, e.g. an archive with exactly one elite or elites sharing a coordinate), the axis
+limits `(lo', hi')` are non-degenerate and contain `[lo, hi]`, and the point drawn for `m` on
+axis `k` sits at the relative height `axisFrac lo' hi' m ∈ [0, 1]` of the host axis, i.e.
+exactly where axis `k` shows the value `m` -/
+theorem parallel_position (l h ys : List Rat) (lo0 hi0 : Rat) (h0l : l[0]? = some lo0)
+    (h0h : h[0]? = some hi0) (h0 : lo0 ≤ hi0) (k : Nat) (lo hi m : Rat) (hl : l[k]? = some lo)
+    (hh : h[k]? = some hi) (hm : ys[k]? = some m) (hb : lo ≤ m ∧ m ≤ hi) :
+    ∃ y' ax0 axk, (axesOf l h)[0]? = some ax0 ∧ (axesOf l h)[k]? = some axk ∧
+      (normYs (axesLo l h) (axesHi l h) ys)[k]? = some y' ∧
+      ax0.1 < ax0.2 ∧ axk.1 < axk.2 ∧ axk.1 ≤ lo ∧ hi ≤ axk.2 ∧
+      axisFrac ax0.1 ax0.2 y' = axisFrac axk.1 axk.2 m ∧
+      0 ≤ axisFrac axk.1 axk.2 m ∧ axisFrac axk.1 axk.2 m ≤ 1 := by
+  obtain ⟨a0, a0l, a0h⟩ := axes_getElem l h 0 lo0 hi0 h0l h0h
+  obtain ⟨ak, akl, akh⟩ := axes_getElem l h k lo hi hl hh
+  have w0 := widen_contains (lo0, hi0) h0
+  have wk := widen_contains (lo, hi) (le_trans hb.1 hb.2)
+  obtain ⟨y', hy', hfrac⟩ := normYs_frac (axesLo l h) (axesHi l h) ys _ _ a0l a0h (ne_of_lt w0.2.2.2)
+    k _ _ m akl akh hm
+  refine ⟨y', widen (lo0, hi0), widen (lo, hi), a0, ak, hy', w0.2.2.2, wk.2.2.2, wk.1, wk.2.1, hfrac, ?_, ?_⟩
+  · unfold axisFrac
+    have h1 : (widen (lo, hi)).1 ≤ m := le_trans wk.1 hb.1
+    have h2 : (0 : Rat) < (widen (lo, hi)).2 - (widen (lo, hi)).1 := by linarith [wk.2.2.2]
+    exact div_nonneg (by linarith) (le_of_lt h2)
+  · unfold axisFrac
+    have h2 : (0 : Rat) < (widen (lo, hi)).2 - (widen (lo, hi)).1 := by linarith [wk.2.2.2]
+    have : m ≤ (widen (lo, hi)).2 := le_trans hb.2 wk.2.1
+    rw [div_le_iff₀ h2]
+    linarith
+
 /-! ## non-vacuity: concrete archives satisfying the hypotheses, evaluated by the kernel -/
 
 def exElites : List Elite := [⟨0, 1 / 2, [0, 0]⟩, ⟨5, -3, [1, 1]⟩]
@@ -1218,7 +1274,13 @@ theorem nonvacuous_scatter_parallel :
         true (some 0) (some 4)
       = .ok ([⟨1, 1 / 4, [3, 2]⟩, ⟨5, 1, [1, 3]⟩], (0, 4)) ∧
     clim [1, 5, -2] none none = .ok (-2, 5) ∧
-    axisFrac 10 18 12 = 1 / 4 := by
+    axisFrac 10 18 12 = 1 / 4 ∧
+    -- exactly one elite in an archive whose bounds are the stored measures (lower = upper):
+    -- every axis is widened and the measures are drawn mid-axis
+    parallelAxes [1 / 2, 2, 3] [1 / 2, 2, 3] none
+      = some [(49 / 100, 51 / 100), (199 / 100, 201 / 100), (299 / 100, 301 / 100)] ∧
+    parallelPlot [1 / 2, 2, 3] [1 / 2, 2, 3] none [⟨0, 1, [1 / 2, 2, 3]⟩] false none none
+      = .ok ([⟨1, 0, [1 / 2, 1 / 2, 1 / 2]⟩], (1, 1)) := by
   decide +kernel
 
 end Pyribs.C20
